@@ -50,6 +50,8 @@ type MonSpec struct {
 	AfterTxn int                `json:"after_txn"` // established once this many transactions were issued
 	Tables  map[string]*MonTable `json:"tables"`
 	Concurrent bool             `json:"concurrent,omitempty"` // issue while a transaction is in flight
+	Delay      int              `json:"delay,omitempty"`      // concurrent: start the monitor this many scheduling steps after the transaction was sent
+	Burst      int              `json:"burst,omitempty"`      // concurrent: the writer sends this many more transactions without waiting
 }
 
 type ClientSpec struct {
